@@ -14,13 +14,54 @@ let info_str (i : M.rt_info) =
 let res_str f r = match r with
   | M.Done v -> f v | M.Fault (_, z) -> "FAULT@" ^ zs z | M.OutOfFuel -> "OUTOFFUEL"
 
+(* spec: refused classes -> err; well-formed single-word headers -> the values at the specification's offsets;
+   anything else (multi-word chains, undefined bits) is not constrained here *)
 let op_rtap t =
   let a = ints_of_hex t.(1) in
-  "rtap " ^ res_str (fun o -> match o with M.Err _ -> "err" | M.Ok i -> "ok " ^ info_str i)
-    (M.parse_radiotap_info (rd_strict_arr a) (z_of_int (Array.length a)))
+  let n = Array.length a in
+  let model = "rtap " ^ res_str (fun o -> match o with M.Err _ -> "err" | M.Ok i -> "ok " ^ info_str i)
+    (M.parse_radiotap_info (rd_strict_arr a) (z_of_int n)) in
+  let itlen = if n >= 4 then a.(2) + 256 * a.(3) else 0 in
+  if n < 8 || a.(0) <> 0 || itlen < 8 || n < itlen || itlen > 255 then model ^ " ## rtap err"
+  else begin
+    let buf = List.map z_of_int (Array.to_list a) in
+    if M.s_wf1b buf then model ^ " ## rtap ok " ^ info_str (M.s_info buf) else model
+  end
 
 let op_rssi t =
   let a = ints_of_hex t.(1) in
   "rssi " ^ res_str zs (M.parse_radiotap_rssi (rd_strict_arr a))
 
-let ops : (S.t * (S.t array -> S.t)) list = [ "rtap", op_rtap; "rssi", op_rssi ]
+let mk_info t : M.rt_info =
+  let z i = z_of_string t.(i) in
+  let u8 v = M.Z.modulo v (z_of_int 256) and u16 v = M.Z.modulo v (z_of_int 65536) in
+  let nant = int_of_string t.(19) in
+  { M.i_chan_freq = u16 (z 2); i_chan_flags = u16 (z 3); i_chan_center = M.Z0; i_chan_band = M.Z0;
+    i_rate_raw = u8 (z 4); i_signal = u8 (z 5); i_flags = u8 (z 6); i_ext_flags = M.Z0;
+    i_rx_flags = u16 (z 7); i_tx_flags = u16 (z 8); i_mcs_known = u8 (z 9); i_mcs_flags = u8 (z 10); i_mcs_mcs = u8 (z 11);
+    i_tx_power = u8 (z 12); i_ts = z 13; i_ts_accuracy = u16 (z 14); i_ts_unit = u8 (z 15); i_ts_flags = u8 (z 16);
+    i_rts_retries = u8 (z 17); i_data_retries = u8 (z 18);
+    i_antennas = List.init (min nant 16) (fun k -> (u8 (M.Z.add (z 20) (z_of_int k)), u8 (M.Z.add (z 21) (z_of_int k))));
+    i_length = M.Z0 }
+
+let parse_part (bytes : z list) =
+  let a = Array.of_list (List.map int_of_z bytes) in
+  match M.parse_radiotap_info (rd_strict_arr a) (z_of_int (Array.length a)) with
+  | M.Done (M.Ok i) -> " parse=ok " ^ info_str i
+  | M.Done (M.Err _) -> " parse=err"
+  | _ -> " parse=FAULT"
+
+(* model: create then decode; spec (only for descriptions the header can carry): rendered layout, restricted values *)
+let op_rtgen t =
+  let present = z_of_string t.(1) in
+  let info = mk_info t in
+  let model = match M.create_radiotap present info with
+    | M.Done b -> sp "rtgen %d %s" (List.length b) (hex_of_bytes b) ^ parse_part b
+    | M.Fault (_, z) -> "rtgen FAULT@" ^ zs z
+    | M.OutOfFuel -> "rtgen OUTOFFUEL" in
+  if M.carriedb present then
+    let b = M.s_render present info in
+    model ^ " ## " ^ sp "rtgen %d %s" (List.length b) (hex_of_bytes b) ^ " parse=ok " ^ info_str (M.s_restrict present info)
+  else model
+
+let ops : (S.t * (S.t array -> S.t)) list = [ "rtap", op_rtap; "rssi", op_rssi; "rtgen", op_rtgen ]
